@@ -57,6 +57,7 @@ type Interp struct {
 	steps    int64
 	depth    int
 	tagCount map[string]int
+	randFailed bool
 	top      *frame
 	ghost    map[string]Value
 	Steps    int64 // total
